@@ -526,7 +526,7 @@ theorem superset_key {F : BodyFn} {P : Project} {g : G} {marks : List Nat} {w : 
 /-- `superset_key` at the level of `build`: `d` is a complete dry run from `w` with the options of `cfg`, `r` the real
 build from the same world. -/
 theorem build_Q {F : BodyFn} {P : Project} {cfg : Cfg} {w : World} {dp rp : List Nat} {d r : Result}
-    (hreal : cfg.dry = false) (hmf : cfg.maxFail = none)
+    (hreal : cfg.dry = false) (hlim : cfg.maxFail = none ∨ ∀ t, (t, Outcome.fail) ∉ d.reports)
     (wf : ∀ t, t ∈ P.tasks → ∀ u, u ∈ P.tasks → t.src ∉ u.prods)
     (hd : build F P { cfg with dry := true } w dp = .ok d) (hc : d.complete = true)
     (hr : build F P cfg w rp = .ok r) :
@@ -556,7 +556,16 @@ theorem build_Q {F : BodyFn} {P : Project} {cfg : Cfg} {w : World} {dp rp : List
       cases hdag'
       rw [hso] at hso'
       cases hso'
-      have hflags := buildLoop_dry_flags (cfg := { cfg with dry := true }) rfl hmf dp so _ soD sD hloopD rfl rfl
+      have hflags : sD.stop = false ∧ sD.crashed = false := by
+        rcases hlim with hmf | hnf
+        · exact buildLoop_dry_flags (cfg := { cfg with dry := true }) rfl hmf dp so _ soD sD hloopD rfl rfl
+        · obtain ⟨hcr, hst⟩ := buildLoop_dry_stop (cfg := { cfg with dry := true }) rfl dp so _ soD sD hloopD rfl rfl
+          refine ⟨?_, hcr⟩
+          cases hs : sD.stop
+          · rfl
+          · obtain ⟨t', ht'⟩ := hst hs
+            rw [← hdrep] at ht'
+            exact absurd ht' (hnf t')
       have hact : soD.isActive = false := by
         rw [hdc, hflags.1, hflags.2] at hc
         simpa using hc
